@@ -25,6 +25,7 @@ func verifStubMasterList() (cms.CertPool, error) {
 }
 
 func verifStubReaderRead(r *reader.Reader, p *password.Password, atr, ats []byte) (*document.DocumentEx, *iso7816.ApduLog, error) {
+	verifSerial()
 	return &document.DocumentEx{}, nil, nil
 }
 
@@ -44,6 +45,7 @@ func verifH_C20_mobile() {
 	verifWatchOnce(&cscaInitErr, &cscaOnce)
 	r := NewReader(nil, verifNullT{})
 	verifWatch(r, &r.mu)
+	verifSerialMu = &r.mu
 	switch verifParam("method") {
 	case 0:
 		r.SetApduMaxLe(verifInt(-1, 70000))
@@ -68,3 +70,14 @@ func verifH_C20_mobile() {
 }
 
 func verifLocksReleased() bool { return true }
+
+// serialisation of whole calls (C20): when set, every stub that stands for chip I/O or a
+// verification step asserts that the object's mutex is held at that point, i.e. the whole
+// operation - not just the configuration accesses - is mutually exclusive on a shared instance.
+var verifSerialMu any
+
+func verifSerial() {
+	if verifSerialMu != nil {
+		verifAssert(verifHeld(verifSerialMu), "the operation runs while the object's mutex is held (calls on a shared instance are serialised)")
+	}
+}
